@@ -126,6 +126,16 @@ CHECKS.update({
         ref='3/C10'),
 })
 
+CHECKS.update({
+    'C13': dict(
+        technique='property-based testing of generated cache/asker/peer-question scenarios in the simulator with pinned, recorded jitter; oracle = cache snapshot at sendto time + reference question-history model',
+        text=SIM + 'browsers, lookups and registered services share one instance whose cache holds 0-400 pointers aged around half TTL; every emitted query '
+             '(TC chains assembled, independent decoder) must list exactly the non-stale matching records with floor(remaining TTL); scheduled asking instants '
+             'are replayed against HistoryModel (own questions per question, heard answerable questions with the whole answer section): QM emitted iff not suppressed, QU always, progression and lookup spacing.',
+        note='heard queries are observed at handle_assembled_query (harness-side wrapper); decisions within the clock drift of a boundary are ties; open finding F14 excluded by construction',
+        ref='3/C13'),
+})
+
 NOT_YET = {
 }
 
